@@ -8,6 +8,8 @@ from . import core, build, histories, oracles, qsim
 def hist_class(profile_kw):
     if profile_kw.get("directed") == "restart-fault":
         return histories.RestartFaultHistory
+    if profile_kw.get("directed") == "cleaner-fault":
+        return histories.CleanerFaultHistory
     if profile_kw.get("conc_injectors"):
         from . import conchist
         return conchist.ConcHistory
